@@ -146,8 +146,8 @@ def run_c14(pid, tier):
 
 def run_c15(pid, tier):
     out = C.Outcome(pid, tier)
-    out.rule = ("aggregate cases enumerated by TLC from Process.tla: every selection list of length <= 2 over {x, !x} for a 4-country "
-                "universe x ratio assignments over {0, 1/2, 1, 3/2}; each replayed through the real run_model_no_trade with the per-country "
+    out.rule = ("aggregate cases enumerated by TLC from Process.tla: every selection list of length <= 2 over {x, !x} for a 6-country "
+                "universe (incl. one country missing from the world map and one with a different map code) x ratio assignments over {0, 1/2, 1, 3/2}; each replayed through the real run_model_no_trade with the per-country "
                 "optimiser stubbed; distinct = distinct (list, assignment)")
     cases = [c for c in emit(out, tier) if c["k"] == "Aggregate"]
     if not cases:
